@@ -257,6 +257,8 @@ class Session:
         the after-state has been recorded)."""
         global _AUDIT_ON, _CALLS_ON
         from exactly_lib.util.file_utils.std import StdOutputFiles
+        if mem_buff_size is None:
+            mem_buff_size = getattr(self, 'default_mem_buff_size', None)
         mp = self.main_program(mem_buff_size)
         res = RunResult()
         res.argv = list(argv)
